@@ -1110,6 +1110,7 @@ class Canon:
         for _ in range(6):
             c = self._lists(fn)
             c |= self._split_literal_sequences(fn)
+            c |= self._split_tuple_unpacking(fn)
             c |= self._eliminate_continue(fn)
             c |= self._propagate_aliases(fn)
             c |= self._reroll(fn)
@@ -1251,6 +1252,36 @@ class Canon:
                     ast.fix_missing_locations(fn)
                     self.counts['RR'] = self.counts.get('RR', 0) + 1
                     changed = True
+        return changed
+
+    def _split_tuple_unpacking(self, fn) -> bool:
+        """`a, b = (X, Y)` with plain local names on the left and a literal tuple of the same length on the right is `a = X; b = Y` when no item
+        reads a name bound by the statement (the tuple is built before anything is bound; splitting binds `a` before `Y` is evaluated, which
+        only a read of `a` in `Y` could observe - the names are plain locals of this function: no closure reads them in between because nested
+        functions that mention them make the rewrite back off).  Evaluation order of the items is kept."""
+        changed = False
+        for lst in Inliner._stmt_lists(fn):
+            for i, st in enumerate(lst):
+                if not (isinstance(st, ast.Assign) and len(st.targets) == 1 and isinstance(st.targets[0], ast.Tuple) and isinstance(st.value, ast.Tuple)
+                        and len(st.targets[0].elts) == len(st.value.elts) >= 2 and all(isinstance(t, ast.Name) for t in st.targets[0].elts)
+                        and not any(isinstance(e, ast.Starred) for e in st.value.elts)):
+                    continue
+                bound = [t.id for t in st.targets[0].elts]
+                if len(set(bound)) != len(bound):
+                    continue
+                if any(isinstance(n, ast.Name) and n.id in bound for e in st.value.elts for n in ast.walk(e)):
+                    continue
+                if any(isinstance(n, (ast.Lambda, ast.NamedExpr, ast.Yield, ast.YieldFrom, ast.Await)) for e in st.value.elts for n in ast.walk(e)):
+                    continue
+                if any(isinstance(n, (ast.FunctionDef, ast.AsyncFunctionDef, ast.Lambda)) and n is not fn and
+                       any(isinstance(y, ast.Name) and y.id in bound for y in ast.walk(n)) for n in ast.walk(fn)):
+                    continue
+                if any(isinstance(n, (ast.Global, ast.Nonlocal)) and set(n.names) & set(bound) for n in ast.walk(fn)):
+                    continue
+                lst[i:i + 1] = [ast.fix_missing_locations(ast.copy_location(ast.Assign(targets=[ast.Name(id=t.id, ctx=ast.Store())], value=e), st))
+                                for t, e in zip(st.targets[0].elts, st.value.elts)]
+                self.counts['T'] = self.counts.get('T', 0) + 1
+                return True
         return changed
 
     def _split_literal_sequences(self, fn) -> bool:
